@@ -62,7 +62,7 @@ func init() {
 			if rng.Intn(3) == 0 {
 				cfg.HardLimit = cfg.MaxSize + []int64{0, 4096, 16384}[rng.Intn(3)]
 			}
-			cfg.Proxy = h%4 == 3
+			cfg.Proxy = h%4 >= 2 && h%8 < 4 // both storage modes, a quarter of the histories
 			before := r.Len()
 			sr, err := drv.RunSeq(cfg)
 			if err != nil {
